@@ -242,6 +242,8 @@ def direct_eval(tname, nodes, exprs, root, args, wild_templates):
             v = args[n["n"]]
         elif k == "constant":
             raw = exprs[m - 1].operands[0]
+            if n["v"]["c"] == "unsupported":
+                raise NotEvaluable("constant not encoded: " + n["v"]["name"])
             if isinstance(raw, str):
                 if tname == "python":
                     if raw not in PY_NAMED:
@@ -367,6 +369,8 @@ def cpp_reference(nodes, exprs, root, params, wild_templates, name):
                 raise NotEvaluable("free symbol")
             e = n["n"]
         elif k == "constant":
+            if n["v"]["c"] == "unsupported":
+                raise NotEvaluable("constant not encoded: " + n["v"]["name"])
             e = cpp_const(exprs[m - 1].operands[0], t)
         elif k in wild_templates and isinstance(wild_templates[k], str):
             e = wild_templates[k].format(*["n%d" % j for j in a], typeof_0=CPP_T.get(tys[a[-1]], "double"))
@@ -1115,7 +1119,7 @@ def static_keys(r, triples):
             o = rows[row - 1]["o"] if row else ""
             detail = "literal" if o in ("lit", "un:-") else o
             # which node type has no such constant: summarise by the types of constant nodes in the graph
-            detail += "@" + "+".join(sorted({n["t"] for n in r["proj"]["nodes"] if n["k"] == "constant"}))
+            detail += "@" + "+".join(sorted({n["t"] for n in r["proj"]["nodes"] if n["k"] == "constant" and not n["t"].startswith(("integer", "boolean"))}))
         elif clause == "distinct_share":
             detail = "variable " + ("constant_<value>" if str(what).startswith("constant_") else str(what))
         elif clause in ("operator", "operand_order"):
